@@ -11,24 +11,71 @@ STRS = [s for s in c16.DOM['compound'] if s is not None] + ['Pb', 'CaCO3', 'Poly
 CRYSTALS = [c for c in c16.CRYSTALS if c is not None] + ['Sapphire', 'InAs', 'CsF', 'KCl', 'LaB6', 'Mica']
 
 
+_EDGES = {}
+
+
+def edge_table(L):
+    """EdgeEnergy(Z, K..M5) for Z 1..120 through the executor (0 where undefined): used to aim energies at the edges"""
+    if L.config not in _EDGES:
+        Z, S = np.meshgrid(np.arange(1, 121), np.arange(0, 9), indexing='ij')
+        r = L.call('EdgeEnergy', Z.ravel(), S.ravel())
+        _EDGES[L.config] = np.where(r.ok, r.v, 0.0).reshape(120, 9)
+    return _EDGES[L.config]
+
+
+def aimed_energies(L, Zcol, rng, base):
+    """half of the energies from the fixed list, half placed around / between the K..M5 edges of the row's element"""
+    E = np.array([base[i] for i in rng.integers(0, len(base), len(Zcol))], dtype=float)
+    ed = edge_table(L)
+    Zc = np.asarray(Zcol)
+    ok = (Zc >= 1) & (Zc <= 120) & (rng.random(len(Zc)) < 0.5)
+    idx = np.nonzero(ok)[0]
+    if len(idx):
+        sh = rng.integers(0, 9, len(idx))
+        e0 = ed[Zc[idx] - 1, sh]
+        e1 = ed[Zc[idx] - 1, np.minimum(sh + 1, 8)]
+        fac = np.array([1 - 1e-6, 1 + 1e-6, 0.97, 1.03, 1.5])[rng.integers(0, 5, len(idx))]
+        mid = rng.random(len(idx)) < 0.3
+        # never exactly ON an edge: the C tables carry 11 digits, Java full precision, so the two disagree about which side that is
+        val = np.where(mid & (e1 > 0) & (e1 != e0), 0.5 * (e0 + e1), e0 * fac)
+        good = e0 > 0
+        E[idx[good]] = val[good]
+    return E
+
+
+def numeric_columns(L, name, rng, per_fn, strs_dom):
+    """argument columns for one generated function: FULL discrete grid when the function only takes ints (exhaustive lookups),
+    otherwise seeded samples with energies aimed at the element's edges"""
+    f = L.fns[name]
+    sig, an = f['sig'], f['argnames']
+    if set(sig) == {'i'}:
+        grids = np.meshgrid(*[INT_DOM[a] for a in an], indexing='ij')
+        return [g.ravel() for g in grids]
+    cols, Zcol = [], None
+    for ch, a in zip(sig, an):
+        if ch == 's':
+            cols.append([strs_dom[i] for i in rng.integers(0, len(strs_dom), per_fn)])
+        elif ch == 'i':
+            dom = INT_DOM[a]
+            c = dom[rng.integers(0, len(dom), per_fn)]
+            if a == 'Z':
+                Zcol = c
+            cols.append(c)
+        elif a in ('E', 'E0') and Zcol is not None:
+            cols.append(aimed_energies(L, Zcol, rng, c16.DOM['E']))
+        else:
+            dom = c16.DOM.get(a, c16.PDOM)
+            cols.append(np.array([dom[i] for i in rng.integers(0, len(dom), per_fn)]))
+    return cols
+
+
 def requests(L, wrapped, rng, per_fn):
     reqs, strs = [], []
 
     def add(r, s):
         r = r.copy(); m = r['s'] >= 0; r['s'][m] += len(strs); strs.extend(s); reqs.append(r)
     for name in wrapped:
-        f = L.fns[name]
-        cols = []
-        for ch, an in zip(f['sig'], f['argnames']):
-            if ch == 's':
-                cols.append([STRS[i] for i in rng.integers(0, len(STRS), per_fn)])
-            elif ch == 'i':
-                dom = INT_DOM[an]
-                cols.append(dom[rng.integers(0, len(dom), per_fn)])
-            else:
-                dom = c16.DOM.get(an, c16.PDOM)
-                cols.append(np.array([dom[i] for i in rng.integers(0, len(dom), per_fn)]))
-        add(*L.build(name, *cols))
+        add(*L.build(name, *numeric_columns(L, name, rng, per_fn, STRS)))
     k = max(200, per_fn // 10)
     pick = lambda dom, n=k: [dom[i] for i in rng.integers(0, len(dom), n)]
     hk = lambda n=k: rng.integers(-2, 4, n)
@@ -83,7 +130,7 @@ def run_part(mon, req, strs, flavour, scenario=False):
 def main(tier):
     ck = common.Check('C18', tier)
     rng = np.random.default_rng(ck.seed * 31337 + 18)
-    per_fn = 8000 if tier == 'quick' else 250000
+    per_fn = 20000 if tier == 'quick' else 300000
     stats, tot = {}, dict(requests=0, skipped=0, leakchecks=0)
     scen = dict(accepted=0, refused=0)
     wrapped_names = None
